@@ -15,18 +15,37 @@ ASSUMPTIONS = C.STUB_ASSUMPTIONS + ["reference models in envs/<env>.py transcrib
 
 def ref_obl(H):
     def f(st, act, ns, ts):
-        ref = H.ref_step(st, act)
+        # REF_DRAWS: the reference additionally receives S' so that it can READ the fields that depend on fresh randomness
+        # (next piece, spawned tile ...) -- "compared modulo the shared stub draw"; it must not copy anything else from S'
+        ref = dict(H.ref_step(st, act, ns) if getattr(H, "REF_DRAWS", False) else H.ref_step(st, act))
         out = []
+        # optional "_when": V-bool under which the successor-STATE claims are made (where the docs leave the successor
+        # state of e.g. an illegal, terminal action undetermined); reward and termination are always claimed
+        when = ref.pop("_when", None)
+        when_last = ref.pop("_when_last", None)   # optional guard of the termination claim (e.g. an in-spec action the docs do not cover)
         for k, v in ref.items():
             if k == "reward":
                 out.append(("reward == reference", X.eq_arr(vs(ts.reward), v)))
+            elif k == "reward_range":
+                # (lo, hi) V float32: reference reward known up to float rounding only (Euclidean envs, tolerance stated by the harness)
+                r = vs(ts.reward)
+                out.append(("reward within the reference band [lo, hi]", (r >= v[0]) & (r <= v[1])))
             elif k == "last":
-                out.append(("step_type LAST <=> reference termination", (vs(ts.step_type) == 2).iff(v)))
+                iff = (vs(ts.step_type) == 2).iff(v)
+                out.append(("step_type LAST <=> reference termination", iff if when_last is None else when_last.implies(iff)))
             else:
                 obj = ns
                 for part in k.split("."):
                     obj = getattr(obj, part)
-                out.append((f"S'.{k} == reference", X.eq_arr(vs(obj), v)))
+                if k in getattr(H, "REF_SPLIT", ()):
+                    # one obligation per leading index of a large array field (a monolithic 13x13 grid equality is `unknown`)
+                    got = vs(obj)
+                    for i in range(len(v)):
+                        eq = X.eq_arr(got[i], v[i])
+                        out.append((f"S'.{k}[{i}] == reference", eq if when is None else when.implies(eq)))
+                    continue
+                eq = X.eq_arr(vs(obj), v)
+                out.append((f"S'.{k} == reference", eq if when is None else when.implies(eq)))
         return out
     return f
 
